@@ -345,4 +345,4 @@ def run(ctx) -> None:
     ctx.sweep("long sessions + scripted expiry histories", len(longs) + len(scripts), True)
     cases = st.fixed_dictionaries({"config": st.fixed_dictionaries({"lifetime": st.sampled_from([None, 30, 600])}),
                                    "events": events(30 if ctx.quick else 60)})
-    ctx.hyp("histories", cases, lambda c: _run_one(ctx, c), ctx.n(1200, 160000))
+    ctx.hyp("histories", cases, lambda c: _run_one(ctx, c), ctx.n(3200, 200000))
